@@ -30,12 +30,13 @@ MANIFEST = dict(
          "XREADGROUP, XPENDING, XCLAIM, XAUTOCLAIM, XTRIM, XINFO STREAM FULL, GEOADD, GEORADIUS*, GEOSEARCH*, FUNCTION LOAD, "
          "CLIENT KILL, ACL LOG) Coq theorems show, for all arguments incl. unbounded key/member/id/stream lists, that the argv "
          "built by adapter.go equals the argv of a hand-written go-redis v9 specification up to keyword case, the default '=' and "
-         "SET option order; 6 classes of differences pinned by the adapter's own tests or not repairable are characterised exactly "
-         "(iff theorems) and reported as known findings; 6 defects found this way were repaired in the repository. The adapter "
+         "SET option order; 5 kinds of differences (10 call sites) pinned by the repository's own tests or not repairable are characterised "
+         "exactly (iff theorems) and reported as known findings; 3 defects found this way were repaired in the repository. The adapter "
          "model is compared with the real adapter.go on every run; a Go transcription of go-redis is the direct oracle.",
     note="go-redis v9 is not installed: the reference is a hand-written specification (trusted); methods outside the list are "
-         "not claimed; three families are claimed on a restricted argument range because the specification is not certain "
-         "outside (BitPosSpan span, (B)LMPop count<=0, SortStore to the empty key).",
+         "not claimed; five families are claimed on a restricted argument range because the specification, or Redis' treatment of the "
+         "two spellings, is not certain outside (BitPosSpan span, (B)LMPop count<=0, SortStore to the empty key, SCAN-family "
+         "cursors >= 2^63, ACLLog count<=0).",
     technique="Coq proof (case analysis + list induction over a tagged-token normal form) + differential run of model vs implementation + reference oracle",
     category="proof",
 )
